@@ -10,6 +10,7 @@
 //!
 //! Spawned tasks are pushed onto a harness-visible list (`model::tasks`), so
 //! which task runs next is a choice of the harness.
+#![cfg_attr(kani, feature(allocator_api))]
 #![allow(clippy::all)]
 #![allow(dead_code, unused_variables, unused_imports)]
 
@@ -17,6 +18,8 @@
 pub mod macros;
 
 pub mod io;
+#[cfg(kani)]
+pub mod maps;
 pub mod model;
 pub mod runtime;
 pub mod sync;
